@@ -99,6 +99,23 @@ def soup(rnd, n):
     return "".join(rnd.choice(SOUP) for _ in range(n))
 
 
+# comment stripper soup (driver command `stripcomments` against TokenParser._remove_comments): the characters the comment regex reacts
+# to — slashes, stars, both quotes, LF and CARRIAGE RETURN (alone, doubled, as CR LF: a `//` comment may end in `\r?$`, fix F73; a lone
+# CR inside the text is no line end) — glued without any grammar, plus some ready-made comments with every kind of line end
+STRIP_SOUP = ["/", "/", "/", "*", "*", "\r", "\r", "\n", "\n", "\r\n", "\r\n", '"', "'", " ", "a", "b;", "//", "//", "/*", "*/", "// c", "// c\r\n", "//\r\n",
+              "// c\r", "//\r", "// c\n", "/* c */", "/*\r\n*/", "/**/", "\r\r\n", "\n\r", "\t", "\x0c", "\x85", "\u2028", "uint8 x;"]
+STRIP_EDGE = [
+    "uint8 x; // c\r\n uint8 y;", "a // c\rb", "a // c\r", "a // c\r\r\n", "a // c\r\r", "//\r\n", "//\r", "//\r\r", "//", "//\n", "a//\r\nb", "a//\rb",
+    "a/**///\r\nb", "a//x\r\n/**/b", "a/**/\r\n", "a/**/\rb", "\"//\"\r\n", "'//\r\n'", "\"a\r\n// c\r\n\"", "// \" \r\n \" //\r\n", "/* // c\r\n */", "// /* c\r\n */",
+    "x // a\r\n// b\r\n// c\r", "x // a\r// b\r\ny", "x /// c\r\n", "x // c \r\n", "x // c\r \n", "x // c\r\x0c\n", "x // c\x85", "x // c\u2028y",
+    "#define A 1 // c\r\nstruct S { uint8 a; // m\r\n};\r\n", "struct S {\r\n  uint8 a; // first\r\n  uint8 b; /* second */\r\n};\r\n",
+]
+
+
+def strip_soup(rnd, n):
+    return "".join(rnd.choice(STRIP_SOUP) for _ in range(n))
+
+
 INSERTS = [" ", "\n", "\t", ";", ",", "*", ":", "[", "]", "{", "}", "=", "1", "a", "\r", "#", "/*x*/", "//y\n", "\xa0", "\x0c", "struct ", "enum ", " : 3", "[2]", "[]"]
 
 
